@@ -143,6 +143,28 @@ def shard_seq(spec):
     return acc
 
 
+PREFIXES = [
+    # the parser is not in its initial state: a header comment and a complete statement have been read
+    [T.COMMENT, T.A, T.EQ, T.QS],
+    [T.COMMENT, T.B, T.EQ, T.ONE, T.SEMI],
+    [T.GROUP, T.EQ, T.A, T.COMMENT, T.B, T.EQ, T.QS],
+]
+
+
+def shard_prefixed(spec):
+    """every short token sequence after a fixed prefix (non-initial parser states)"""
+    pi, first = spec
+    prefix = PREFIXES[pi]
+    acc = Acc()
+    for n in (0, 1, 2):
+        for tup in itertools.product(T.ALPHABET23, repeat=n):
+            seq = prefix + [first] + list(tup)
+            judge(acc, seq, {"kind": "sequence"})
+            judge(acc, seq, {"kind": "sequence"}, compact=True)
+    acc.sample({"prefix": T.render(prefix), "then": first[1]}, cap=1)
+    return acc
+
+
 def shard_damage(spec):
     di, depth, lo, hi = spec
     base = docs()[di]
@@ -212,6 +234,7 @@ def run(ctx):
     k11 = 5 if q else 6
     specs += [(T.ALPHABET11, k11, [a, b]) for a in T.ALPHABET11 for b in T.ALPHABET11]
     ctx.pmap(shard_seq, specs, into=acc)
+    ctx.pmap(shard_prefixed, [(pi, t) for pi in range(len(PREFIXES)) for t in T.ALPHABET23], into=acc)
     dspecs = []
     for di, base in enumerate(docs()):
         nd = len(T.damage(base, A18))
@@ -227,7 +250,7 @@ def run(ctx):
         "states": len({(a, b) for a, b, _ in edges}), "transitions": len(edges),
         "traces_validated_against_impl": acc.traces,
         "rule": "all token sequences of length <= %d over the 23-token alphabet (18 well-formed tokens + an unterminated quoted string, one ending in the other quote character, an unterminated units expression, an unterminated comment + BEGIN_GROUP, which is a plain name under the ISIS grammar) and of length %d over a 12-token "
-                "core, plus %d reference documents x all single%s token damages (delete, duplicate, swap, "
+                "core, every sequence of length <= 3 after each of 3 prefixes (header comment + complete statement: non-initial parser states; spaced and compact), plus %d reference documents x all single%s token damages (delete, duplicate, swap, "
                 "replace by any alphabet token, truncate); each rendered with single spaces (lexically damaged ones also one token per line with a final line end; damaged documents also without optional white space) and run on 5 loaders; "
                 "states = distinct reference verdicts (class, diagnosis), transitions = (verdict, loader) pairs "
                 "exercised, traces = sequences replayed on the implementation; non-trivial = the reference "
